@@ -36,7 +36,12 @@ RetOK(s, e, zero) ==
     [] e.op = "String"   -> e.r = <<NameOf(e.kind)>>
     [] OTHER             -> e.r = <<>>
 
+\* C12 on a load inside a list history: success => exactly the input; failure => unchanged
+C12(pre, e) == e.op = "FromJSON" => /\ Completed(e)
+                                    /\ e.post.vals = (IF e.r[1] THEN e.a.vs ELSE pre.vals)
+                                    /\ ObsAgrees(e.post, e.cfg.zero)
 C03(pre, e) ==
+  e.op # "FromJSON" =>                    \* the load itself is C12's; what follows is judged from the observed state
   /\ Completed(e)
   /\ IF e.op = "New" THEN e.post.vals = e.a.vs
      ELSE ListAllowed(pre.vals, e.op, e.a, e.post.vals)
@@ -53,6 +58,7 @@ C18(pre, e) == Completed(e) => PureOK(e) /\ (~e.mut => e.post = pre)
 
 Obl(p, pre, e) ==
   CASE p = "C03" -> C03(pre, e)
+    [] p = "C12" -> C12(pre, e)
     [] p = "C15" -> C15(pre, e)
     [] p = "C17" -> SilentOK(e)
     [] p = "C18" -> C18(pre, e)
